@@ -191,23 +191,23 @@ structure CopyListOk (f : Nat) (t : Nat) (H : Heaps) (vs : List Val) (vs' : List
 
 theorem copyList_ok (f t : Nat) (cp : Heaps → Val → Option (Val × Heaps))
     (hcp : ∀ H v v' H', cp H v = some (v', H') → CopyOk f t H v v' H') :
-    ∀ vs H vs' H', copyList cp H vs = some (vs', H') → CopyListOk f t H vs vs' H' := by
+    ∀ vs H vs' H', copyListOld cp H vs = some (vs', H') → CopyListOk f t H vs vs' H' := by
   intro vs
   induction vs with
   | nil =>
     intro H vs' H' h
-    simp only [copyList, Option.some.injEq, Prod.mk.injEq] at h
+    simp only [copyListOld, Option.some.injEq, Prod.mk.injEq] at h
     obtain ⟨rfl, rfl⟩ := h
     exact ⟨Ext.refl _, ⟨[], rfl, rfl⟩, ⟨[], rfl, by simp⟩⟩
   | cons v vs ih =>
     intro H vs' H' h
-    simp only [copyList] at h
+    simp only [copyListOld] at h
     cases h1 : cp H v with
     | none => simp [h1] at h
     | some p1 =>
       obtain ⟨v1, H1⟩ := p1
       simp only [h1] at h
-      cases h2 : copyList cp H1 vs with
+      cases h2 : copyListOld cp H1 vs with
       | none => simp [h2] at h
       | some p2 =>
         obtain ⟨vs2, H2⟩ := p2
@@ -230,33 +230,33 @@ theorem copyList_ok (f t : Nat) (cp : Heaps → Val → Option (Val × Heaps))
           · exact p2 a ha
 
 /-- fuel can be raised by one in `render` / `addrs` (used to line the copy's fuel up with the caller's) -/
-theorem deepCopy_ok (t : Nat) : ∀ f H v v' H', deepCopy f H t v = some (v', H') → CopyOk f t H v v' H' := by
+theorem deepCopyOld_ok (t : Nat) : ∀ f H v v' H', deepCopyOld f H t v = some (v', H') → CopyOk f t H v v' H' := by
   intro f
   induction f with
-  | zero => intro H v v' H' h; simp [deepCopy] at h
+  | zero => intro H v v' H' h; simp [deepCopyOld] at h
   | succ f ih =>
     intro H v v' H' h
     cases v with
     | int n =>
-      simp only [deepCopy, Option.some.injEq, Prod.mk.injEq] at h; obtain ⟨rfl, rfl⟩ := h
+      simp only [deepCopyOld, Option.some.injEq, Prod.mk.injEq] at h; obtain ⟨rfl, rfl⟩ := h
       exact ⟨Ext.refl _, ⟨_, rfl, rfl⟩, ⟨[], rfl, by simp⟩⟩
     | float b =>
-      simp only [deepCopy, Option.some.injEq, Prod.mk.injEq] at h; obtain ⟨rfl, rfl⟩ := h
+      simp only [deepCopyOld, Option.some.injEq, Prod.mk.injEq] at h; obtain ⟨rfl, rfl⟩ := h
       exact ⟨Ext.refl _, ⟨_, rfl, rfl⟩, ⟨[], rfl, by simp⟩⟩
     | bool b =>
-      simp only [deepCopy, Option.some.injEq, Prod.mk.injEq] at h; obtain ⟨rfl, rfl⟩ := h
+      simp only [deepCopyOld, Option.some.injEq, Prod.mk.injEq] at h; obtain ⟨rfl, rfl⟩ := h
       exact ⟨Ext.refl _, ⟨_, rfl, rfl⟩, ⟨[], rfl, by simp⟩⟩
     | addr p =>
-      simp only [deepCopy, Option.some.injEq, Prod.mk.injEq] at h; obtain ⟨rfl, rfl⟩ := h
+      simp only [deepCopyOld, Option.some.injEq, Prod.mk.injEq] at h; obtain ⟨rfl, rfl⟩ := h
       exact ⟨Ext.refl _, ⟨_, rfl, rfl⟩, ⟨[], rfl, by simp⟩⟩
     | struct a =>
-      simp only [deepCopy] at h
+      simp only [deepCopyOld] at h
       cases hl : lookup H a with
       | none => simp [hl] at h
       | some o =>
         cases o <;> simp only [hl] at h <;> try (simp at h)
         rename_i fs
-        cases hc : copyList (fun H v => deepCopy f H t v) H fs with
+        cases hc : copyListOld (fun H v => deepCopyOld f H t v) H fs with
         | none => simp [hc] at h
         | some p =>
           obtain ⟨fs', H1⟩ := p
@@ -279,13 +279,13 @@ theorem deepCopy_ok (t : Nat) : ∀ f H v v' H', deepCopy f H t v = some (v', H'
             · rfl
             · exact o2 x hx
     | array a =>
-      simp only [deepCopy] at h
+      simp only [deepCopyOld] at h
       cases hl : lookup H a with
       | none => simp [hl] at h
       | some o =>
         cases o <;> simp only [hl] at h <;> try (simp at h)
         rename_i es
-        cases hc : copyList (fun H v => deepCopy f H t v) H es with
+        cases hc : copyListOld (fun H v => deepCopyOld f H t v) H es with
         | none => simp [hc] at h
         | some p =>
           obtain ⟨es', H1⟩ := p
@@ -308,13 +308,13 @@ theorem deepCopy_ok (t : Nat) : ∀ f H v v' H', deepCopy f H t v = some (v', H'
             · rfl
             · exact o2 x hx
     | variant a =>
-      simp only [deepCopy] at h
+      simp only [deepCopyOld] at h
       cases hl : lookup H a with
       | none => simp [hl] at h
       | some o =>
         cases o <;> simp only [hl] at h <;> try (simp at h)
         rename_i tag x
-        cases hc : deepCopy f H t x with
+        cases hc : deepCopyOld f H t x with
         | none => simp [hc] at h
         | some p =>
           obtain ⟨x', H1⟩ := p
@@ -337,7 +337,7 @@ theorem deepCopy_ok (t : Nat) : ∀ f H v v' H', deepCopy f H t v = some (v', H'
             · rfl
             · exact o2 y hy
     | str a =>
-      simp only [deepCopy] at h
+      simp only [deepCopyOld] at h
       cases hl : lookup H a with
       | none => simp [hl] at h
       | some o =>
@@ -351,7 +351,7 @@ theorem deepCopy_ok (t : Nat) : ∀ f H v v' H', deepCopy f H t v = some (v', H'
         · simp [addrs, lookup_alloc_new]
         · intro y hy; simp at hy; subst hy; rfl
     | chan a =>
-      simp only [deepCopy] at h
+      simp only [deepCopyOld] at h
       cases hl : lookup H a with
       | none => simp [hl] at h
       | some o =>
